@@ -86,7 +86,10 @@ open Ecal.Parse in
 /-- an AST of the real parser as an operator tree: `none` unless every node is an infix/prefix operator
     of the table (with the table's binding) or a childless atom, without comments or blank lines.
     Atoms are numbered by their position in `atoms`. -/
-partial def toExpr (n : Node) (atoms : Array (List Nat)) : Option (Expr × Array (List Nat)) :=
+def toExprF : Nat → Node → Array (List Nat) → Option (Expr × Array (List Nat))
+  | 0, _, _ => none
+  | fuel+1, n, atoms =>
+  let toExpr := toExprF fuel
   let plain := n.metas.isEmpty && (match n.tok with | some t => t.prefixNl ≤ 1 | none => false)
   if !plain then none
   else match n.children with
@@ -120,6 +123,9 @@ partial def toExpr (n : Node) (atoms : Array (List Nat)) : Option (Expr × Array
 /-- sink attributes are indented by ppPostProcessing when their parent is not in its no-initial-indent
     list — i.e. under every operator: `-    suppresses a` -/
 def sinkAttrs : List String := ["kindmatch", "scopematch", "statematch", "priority", "suppresses"]
+
+/-- `toExprF` with a fuel far above the depth of any tree the driver sees -/
+def toExpr (n : Ecal.Parse.Node) (atoms : Array (List Nat)) : Option (Expr × Array (List Nat)) := toExprF 100000 n atoms
 
 /-- text of an operator tree with the parentheses the printer decided, with the operator spellings of the
     full printer's templates; `parent` = name of the enclosing operator (none at the root). A sink attribute
